@@ -153,7 +153,7 @@ def body(ctx, replay=None):
     else:
         nb, cnt = (16, 10000) if ctx.tier == "quick" else (64, 32000)
         cases = [{"kind": "batch", "seed": ctx.seed * 100003 + i, "count": cnt} for i in range(nb)]
-        cases += [{"kind": "concurrent", "seed": ctx.seed * 13, "processes": 3 if ctx.tier == "quick" else 12}]
+        cases += [{"kind": "concurrent", "seed": ctx.seed * 13, "processes": 8 if ctx.tier == "quick" else 24}]
         cases += [{"kind": "wiring", "seed": ctx.seed * 7 + j, "count": 200} for j in range(1 if ctx.tier == "quick" else 6)]
     ctx.run_cases(cases, eval_case)
     return ctx.finish()
